@@ -169,7 +169,7 @@ class RefNet:
     """reference semantics of a spec: named state, named parameters, vector field by plain loops"""
 
     def __init__(self, spec):
-        self.spec = spec
+        self.spec = sync_twins(spec)
         self.nodes, self.edges = flatten(spec)
         self.inst = {}     # (node, opname) -> {'lib', 'p': {...}, 's0': {...}}
         for node, ntk in self.nodes.items():
@@ -441,6 +441,7 @@ def build_python(spec, pool=None):
     """pool: optional dict shared between several build calls; template objects are created once per key, so two
     circuits built with the same pool share the same OperatorTemplate / NodeTemplate Python objects"""
     from pyrates import CircuitTemplate, NodeTemplate, OperatorTemplate
+    sync_twins(spec)
     pool = pool if pool is not None else {}
     ops = {}
     for k, o in spec['ops'].items():
@@ -498,6 +499,11 @@ def build_python(spec, pool=None):
 
     def circ(s):
         if s.get('circuits'):
+            if s.get('twin_sub'):
+                # ONE sub-circuit template object used under every key
+                one = circ(next(iter(s['circuits'].values())))
+                return CircuitTemplate(name=s['name'], circuits={k: one for k in s['circuits']},
+                                       edges=[edge(e) for e in s.get('edges', [])])
             return CircuitTemplate(name=s['name'], circuits={k: circ(v) for k, v in s['circuits'].items()},
                                    edges=[edge(e) for e in s.get('edges', [])])
         return CircuitTemplate(name=s['name'], nodes={n: nts[k] for n, k in s['nodes'].items()},
@@ -506,6 +512,7 @@ def build_python(spec, pool=None):
 
 
 def yaml_text(spec):
+    sync_twins(spec)
     lines = ['%YAML 1.2', '---', '']
     for k, o in spec['ops'].items():
         lines += [f"{o['name']}:", '  base: OperatorTemplate', '  equations:']
@@ -552,10 +559,15 @@ def yaml_text(spec):
                 parts.append(f"{et['opname']}/kk: {float(e[2]['kk'])!r}")
         return f"    - [{e[0]}, {e[1]}, {tmpl}, {{{', '.join(parts)}}}]"
 
+    emitted = set()
+
     def circ(s, top):
         subs = s.get('circuits') or {}
         for sub in subs.values():
             circ(sub, False)
+        if spec.get('twin_sub') and s['name'] in emitted:
+            return          # the same sub-circuit template used under several keys is written once
+        emitted.add(s['name'])
         lines.append(f"{s['name']}:")
         lines.append('  base: CircuitTemplate')
         if subs:
@@ -618,6 +630,32 @@ def add_edge_templates(rng, spec, p=0.5, uniq='', delayed=False):
     spec['ets'] = {k: v for k, v in spec['ets'].items() if k in used}
     if not spec['ets']:
         del spec['ets']
+    return spec
+
+
+def sync_twins(spec):
+    """twin sub-circuits are ONE template: after a minimiser dropped something from one copy, the first copy is what counts"""
+    if spec.get('twin_sub') and spec.get('circuits'):
+        keys = list(spec['circuits'])
+        for k in keys[1:]:
+            spec['circuits'][k] = copy.deepcopy(spec['circuits'][keys[0]])
+    return spec
+
+
+def make_twin_subcircuits(rng, spec):
+    """hierarchical spec -> both sub-circuit keys carry the SAME sub-circuit template (one object / one YAML template used
+    twice); the top level connects equal nodes of the two instances"""
+    keys = list(spec['circuits'])
+    first = spec['circuits'][keys[0]]
+    for k in keys[1:]:
+        spec['circuits'][k] = copy.deepcopy(first)
+    spec['twin_sub'] = True
+    spec['edges'] = []
+    net_nodes = list(first['nodes'])
+    for n in rng.sample(net_nodes, min(len(net_nodes), rng.randint(1, 2))):
+        o = spec['ops'][spec['nts'][first['nodes'][n]]['ops'][0]]
+        spec['edges'].append([f"{keys[0]}/{n}/{o['name']}/{LIB[o['lib']]['out']}", f"{keys[-1]}/{n}/{o['name']}/{LIB[o['lib']]['in']}",
+                              {'weight': _grid(rng, -2.0, 2.0, 32) or 0.75}])
     return spec
 
 
